@@ -291,6 +291,9 @@ func (b *Backend) compareEntity(sigp string, s int, e *Ent, where string) {
 		if v := comps.GetV(c, p); v != e.Val[c] {
 			fail(sigp+"|value", "%s %s: entity #%d %v component %s holds %d, model %d", b.Name, where, s, h, comps.All[c].Name, v, e.Val[c])
 		}
+		if e.Val[c] == 0 && !comps.IsZeroBytes(c, p) {
+			fail(sigp+"|memory-nonzero", "%s %s: entity #%d %v component %s was never written but its memory is not all zero", b.Name, where, s, h, comps.All[c].Name)
+		}
 		if comps.All[c].Relation {
 			t := b.U.GetRelation(h, b.IDs[c])
 			if t != b.handle(e.Tgt[c]) {
